@@ -336,4 +336,103 @@ func runC02(c *Check) {
 		}
 	}
 	c.MinInstances("C02-R6", 3)
+	c.Doc("C02-R8", "VP: the cursor of the P2P store polling loops is unchanged on the error path of the range read.")
+	ruleP2PCursor(c, p)
+}
+
+// ruleP2PCursor (C02-R8): the polling loops over the P2P header/data stores keep a cursor (the
+// last store height handed over). On the error path of the range read the cursor must stay
+// unchanged, otherwise the heights of that range are never handed to sync.
+func ruleP2PCursor(c *Check, p *Prog) {
+	rule := "C02-R8"
+	n := 0
+	for _, fn := range funcsCalling(p, rootPath+"/block", func(name string) bool {
+		return strings.HasPrefix(genericName(name), "(github.com/celestiaorg/go-header.Store[_]).Height")
+	}) {
+		// loop-carried cursor: a phi one of whose incoming values is the store height
+		for _, b := range fn.Blocks {
+			for _, in := range b.Instrs {
+				phi, ok := in.(*ssa.Phi)
+				if !ok {
+					continue
+				}
+				var newH ssa.Value
+				for _, e := range phi.Edges {
+					if call, ok := e.(*ssa.Call); ok && call.Common().IsInvoke() && strings.Contains(call.Common().Method.FullName(), "go-header.Store") && call.Common().Method.Name() == "Height" {
+						newH = e
+					}
+				}
+				if newH == nil {
+					continue
+				}
+				// the range read: a repo call taking cursor+1
+				var errBlocks []*ssa.BasicBlock
+				for _, bb := range fn.Blocks {
+					for _, ci := range bb.Instrs {
+						call, ok := ci.(*ssa.Call)
+						if !ok || call.Common().StaticCallee() == nil || !p.InRepo(call.Common().StaticCallee()) {
+							continue
+						}
+						uses := false
+						for _, a := range call.Common().Args {
+							if bo, ok := a.(*ssa.BinOp); ok && bo.X == ssa.Value(phi) {
+								uses = true
+							}
+						}
+						if !uses {
+							continue
+						}
+						// its error check
+						for _, r := range *call.Referrers() {
+							ex, ok := r.(*ssa.Extract)
+							if !ok {
+								continue
+							}
+							for _, rr := range *ex.Referrers() {
+								bo, ok := rr.(*ssa.BinOp)
+								if !ok {
+									continue
+								}
+								for _, r3 := range *bo.Referrers() {
+									if ifi, ok := r3.(*ssa.If); ok {
+										if pol, isTest := nilTestOf(ifi.Cond, ex); isTest {
+											if pol {
+												errBlocks = append(errBlocks, ifi.Block().Succs[0])
+											} else {
+												errBlocks = append(errBlocks, ifi.Block().Succs[1])
+											}
+										}
+									}
+								}
+							}
+						}
+					}
+				}
+				if len(errBlocks) == 0 {
+					// the cursor is advanced before the read (cursor+1 computed earlier): look for a read using a value derived from the phi
+					c.Bad(rule, fnShort(fn)+" ⟂ cursor-unchanged-on-read-error", fnName(fn), p.InstrPos(phi), "the range read of the P2P store does not take cursor+1 directly, or its error is not checked: cannot relate the cursor update to the success of the read", nil)
+					n++
+					continue
+				}
+				n++
+				bad := ""
+				for i, e := range phi.Edges {
+					pred := b.Preds[i]
+					for _, eb := range errBlocks {
+						if eb.Dominates(pred) && e != ssa.Value(phi) {
+							bad = TermOf(e, &Ctx{Fn: fn}).String()
+						}
+					}
+				}
+				if bad == "" {
+					c.OK(rule, fnShort(fn)+" ⟂ cursor-unchanged-on-read-error", fnName(fn), p.InstrPos(phi), "on the error path of the range read the cursor keeps its value (the range is read again on the next poll)", true)
+				} else {
+					c.Bad(rule, fnShort(fn)+" ⟂ cursor-unchanged-on-read-error", fnName(fn), p.InstrPos(phi), "on the error path of the range read the cursor is set to "+trunc(genericName(bad), 80)+": after a transient store error the heights of that range are never handed to sync and the node stays stuck below them", nil)
+				}
+			}
+		}
+	}
+	if n < 2 {
+		c.Unk(rule, "p2p-store-loops", "", "", fmt.Sprintf("anchor lost: %d polling loops with a store-height cursor (2 confirmed by hand)", n))
+	}
 }
